@@ -50,6 +50,7 @@ type FuncSpec struct {
 	IsFnSpec   bool
 	Slots      bool
 	AllocBound *Clause
+	Dispatch   []string // interface method spec: the closed list of implementing types
 	MayPanic   bool
 	AllocFresh bool // results are freshly allocated
 	Splits     []*Split
@@ -290,6 +291,9 @@ func ParseFile(path, defaultPkg string) (*File, error) {
 					return nil, err
 				}
 				cur.AllocBound = c
+			case "dispatch":
+				// interface method spec: calls are resolved by case analysis over these implementing types
+				cur.Dispatch = append(cur.Dispatch, splitTop(rest)...)
 			case "slots":
 				cur.Slots = true // fnspec: every function stored by the package init with this signature must refine it
 			case "assumed", "trusted", "external":
